@@ -26,7 +26,7 @@ LINE_PASSERS = ('skip_cond_incl', 'include_file')
 
 
 # minimum number of distinct obligations per rule, confirmed by hand on the pinned tree (below: exit 2)
-FLOORS = {'R10.1': 15, 'R10.2': 130, 'R10.3': 14, 'R10.4': 40, 'R10.5': 10, 'R10.6': 47, 'R10.7': 8, 'R10.8': 17, 'R10.10': 12, 'R10.11': 9, 'R10.12': 55, 'R10.13': 9}
+FLOORS = {'R10.1': 15, 'R10.2': 130, 'R10.3': 14, 'R10.4': 40, 'R10.5': 10, 'R10.6': 47, 'R10.7': 28, 'R10.8': 17, 'R10.10': 12, 'R10.11': 9, 'R10.12': 55, 'R10.13': 9, 'R10.14': 40}
 
 
 def _declare_rules(rep):
@@ -90,12 +90,15 @@ def run(P, rep, tier):
     guarded('R10.7', r107, P, u, rep)
     guarded('R10.7', r107_per_file, P, u, T, rep)
     guarded('R10.7', r107_probe_predicate, P, rep)
+    guarded('R10.7', _r107_search_sites, P, u, rep)
+    guarded('R10.7', _r107_quoted_site, P, u, T, rep)
     null_first = guarded('R10.8', r108, P, u, T, rep, dres)
     guarded('R10.10', r1010_joiners, P, rep, bool(null_first))
     guarded('R10.11', r1011_define_option, P, rep)
     guarded('R10.6', r106, P, rep)
     guarded('R10.9', r109_macro_table_order, P, rep)
     guarded('R10.12', r1012_if_arithmetic, P, rep, tier)
+    guarded('R10.14', r1014_tables, P, rep)
 
 
 # ------------------------------------------------------------------------------------------------ R10.1
@@ -1864,13 +1867,24 @@ def _r107_cursor(P, u, rep, gl):
                'globals': gl, 'lazy_field': hook, 'loop_limit': 3}
         it = PPInterp(P, u, cfg)
         n = 0
+        nfree = 0
         bad = None
+        unsearched = None
         psyms = [Sym('p:' + p.name, p.type) for p in u.params(fn)] or [Sym('filename', 'char *')]
         for ctx, out in it.explore(fn, lambda ctx: list(psyms), max_paths=500):
             if out[0] != 'ret':
                 continue
             fe = calls(ctx, 'file_exists')
             if not fe or not truth_in(it, ctx, fe[-1][4]):
+                # an answer given without a successful directory probe (and, the cache being empty here, not from the cache)
+                r = settle(it, out[1]) if isinstance(out[1], View) else out[1]
+                if not (isinstance(r, int) and r == 0):
+                    nfree += 1
+                    cur = ctx.globals.get('include_next_idx')
+                    cur = settle(it, cur) if isinstance(cur, View) else cur
+                    if not (isinstance(cur, int) and not isinstance(cur, bool) and cur == 0):
+                        stale = cur is getattr(ctx, 'g0', {}).get('include_next_idx')
+                        unsearched = unsearched or ((stale, cur), ctx.trail)
                 continue
             # the directory probed last: format("%s/%s", include_paths.data[i], filename)
             p = fe[-1][2][0] if fe[-1][2] else None
@@ -1901,6 +1915,20 @@ def _r107_cursor(P, u, rep, gl):
         key = 'cursor-after-found-directory' if not bad or 'cursor' in bad[0] else 'probing-order'
         rep.ob('R10.7', '%s:%s:%s' % (U, fn, key if bad else 'cursor-and-probing-order'), bad is None, bad[0] if bad else '', where=where,
                facts={'path': bad[1]} if bad else None)
+        # a name the function answers without searching (an absolute name) has no position in the include path: like a file found next to its includer
+        # (call-site rule: 0) its #include_next searches the whole path.  The callers record the cursor after every successful call, so a path that answers
+        # non-NULL and leaves the cursor alone hands them the cursor of an unrelated earlier lookup.
+        if 'include_next_idx' in u.globals and (nfree or fn == 'search_include_paths'):
+            if unsearched:
+                (stale, cur), trail = unsearched
+                rep.ob('R10.7', '%s:%s:%s' % (U, fn, 'cursor-stale-for-unsearched-name' if stale else 'cursor-not-reset-for-unsearched-name'), False,
+                       '%s answers a name without finding it in a directory of the include path (an absolute name is returned as it is) and leaves the #include_next cursor %s: '
+                       'its callers record the cursor after every successful lookup in the File of the included tokens, so `#include_next` in a header included by absolute '
+                       'name resumes behind the directory of whatever was looked up before (a.h: cannot open file, or a header is skipped); such a file has no position in '
+                       'the include path, its #include_next searches all of it (cursor 0, as gcc does)' % (
+                           fn, 'as the previous lookup left it' if stale else 'at %r' % (cur,)), where=where, facts={'path': trail})
+            else:
+                rep.ob('R10.7', '%s:%s:cursor-reset-for-unsearched-name' % (U, fn), True, '', where=where)
 
 
 def r107_per_file(P, u, T, rep):
@@ -2206,6 +2234,204 @@ def r107_probe_predicate(P, rep):
            'file_exists answers %s whenever stat() succeeds, whatever kind of object the name denotes: a DIRECTORY named like the header satisfies the include search '
            '(d1/foo/ a directory, d2/foo the header: `#include <foo>` stops at d1 and includes nothing, without a diagnostic; gcc skips d1)' % ('yes' if True in found else 'no'),
            where=where)
+    if ok:
+        _r107_probe_kinds(P, mu, rep, fn, where)
+
+
+# file type bits of st_mode (POSIX <sys/stat.h>, Linux values: S_IFMT 0170000)
+FILE_KINDS = (('regular-file', 0o100000), ('character-device', 0o020000), ('fifo', 0o010000), ('block-device', 0o060000), ('socket', 0o140000))
+DIR_KIND = ('directory', 0o040000)
+LINK_KIND = ('symbolic-link', 0o120000)
+
+
+def _r107_probe_kinds(P, mu, rep, fn, where):
+    """search order (C11 6.10.2 + gcc manual): the search ends at the FIRST directory in which the name exists and is not a directory -- whatever else it is.  gcc
+    reads a header that is a character device (the usual stub: a symbolic link to /dev/null), a FIFO or a /dev/fd entry, and stops with a diagnostic at anything
+    else it cannot read; it never goes on to a later directory.  So the probe must answer true for stat() == 0 with every file type except S_IFDIR, whatever the
+    permission bits and the other fields of the stat record are, false for S_IFDIR, and false when stat() fails.  Decided by running the predicate once per file
+    type with stat() filling in a record whose st_mode is concrete (type | permission bits) and whose other fields are unknown: the set of answers over all paths
+    must be exactly the expected one."""
+    from ..interp import Interp
+    seen_calls = set(c.callee() for c in mu.fn(fn).calls() if c.callee())
+    nofollow = bool(seen_calls & {'lstat', 'lstat64'}) and not (seen_calls & {'stat', 'stat64', 'fstat', 'fstatat', 'open', 'realpath'})
+    if nofollow:
+        rep.ob('R10.7', 'main.c:%s:probe-does-not-follow-symbolic-links' % fn, False,
+               'file_exists asks lstat(), which reports a symbolic link itself: a link to a header and a link to a directory get the same answer, so either a linked header '
+               'does not satisfy the search (it goes on to a later directory) or a linked directory does (nothing is included)', where=where)
+        return
+
+    def run(mode, rc):
+        state = {}
+
+        def h_stat(it, ctx, n, args):
+            buf = [a for a in args if isinstance(a, _Ref)]
+            if rc == 0:
+                if not buf:
+                    raise Unsupported('stat() is not handed the address of a local record')
+                o = Obj('stat', lazy=True, label='statbuf')
+                o.fields['st_mode'] = mode
+                buf[-1].place.set(it, o)
+            state['called'] = True
+            ctx.emit('call', 'stat', args, n.line, rc, None)
+            return rc
+        it = Interp(P, mu, {'cut': {'stat': h_stat, 'lstat': h_stat, 'stat64': h_stat, 'fstatat': h_stat}, 'loop_limit': 2})
+        ans = set()
+        for ctx, out in it.explore(fn, lambda ctx: [Sym('path', 'char *')], max_paths=200):
+            if out[0] != 'ret':
+                ans.add(('noreturn', out[1] if len(out) > 1 else None))
+                continue
+            ans.add(truth_in(it, ctx, out[1]))
+        return ans, state.get('called', False)
+
+    def verdict(kind, mode, rc, want):
+        answers = set()
+        for perm in (0o644, 0o000, 0o7777):
+            try:
+                a, called = run(mode | perm, rc)
+            except (Unsupported, Infeasible, AnalysisBroken) as e:
+                return None, 'not interpretable: %s' % e
+            if not called:
+                return None, 'the predicate does not call stat()'
+            answers |= a
+            if rc != 0:
+                break
+        if None in answers or any(isinstance(x, tuple) for x in answers):
+            return None, 'answers %s' % sorted(answers, key=repr)
+        return answers == {want}, answers
+    for kind, mode in FILE_KINDS:
+        ok, a = verdict(kind, mode, 0, True)
+        if ok is None:
+            rep.undecided('R10.7', 'main.c:%s:answer/%s' % (fn, kind), 'what file_exists answers for a name that denotes a %s could not be followed (%s)' % (kind, a), where=where)
+            continue
+        rep.ob('R10.7', 'main.c:%s:%s/%s' % (fn, 'found' if ok else 'not-found', kind), ok,
+               'file_exists answers %s for a name for which stat() succeeds and reports a %s: the include search does not end at the first directory in which the name exists '
+               'as something other than a directory, it silently goes on to a LATER directory and includes another file of that name (a header stubbed out as a symbolic '
+               'link to /dev/null, a FIFO, a /dev/fd entry; or an existing header the answer makes depend on permission bits / size / owner: gcc ends the search there, '
+               'reading the file or diagnosing it)' % ('"no"' if a == {False} else 'yes or no depending on something other than the file type', kind), where=where,
+               facts={'answers': sorted(a, key=repr)})
+    ok, a = verdict(DIR_KIND[0], DIR_KIND[1], 0, False)
+    if ok is None:
+        rep.undecided('R10.7', 'main.c:%s:answer/directory' % fn, 'what file_exists answers for a directory could not be followed (%s)' % (a,), where=where)
+    else:
+        rep.ob('R10.7', 'main.c:%s:%s/directory' % (fn, 'not-found' if ok else 'found'), ok,
+               'file_exists answers yes for (some) directories: a directory named like the header ends the include search and nothing is included', where=where,
+               facts={'answers': sorted(a, key=repr)})
+    ok, a = verdict('missing', 0, -1, False)
+    if ok is False and False in a:
+        ok = True       # the answer depends on why stat() failed (errno): gcc, too, ends the search at a name it may not look at
+    if ok is None:
+        rep.undecided('R10.7', 'main.c:%s:answer/missing' % fn, 'what file_exists answers when stat() fails could not be followed (%s)' % (a,), where=where)
+    else:
+        rep.ob('R10.7', 'main.c:%s:%s/missing' % (fn, 'not-found' if ok else 'found'), ok,
+               'file_exists answers yes although stat() failed (the stat record is indeterminate then): a name that does not exist in a directory ends the include search there',
+               where=where, facts={'answers': sorted(a, key=repr)})
+
+
+def _r107_search_sites(P, u, rep):
+    """the same clause decided where it matters, whatever helper the probe is made with: each directory search of the preprocessor is run with its probe predicate
+    inlined and stat() answering "exists, file type K" for the first name probed (and "regular file" for every later one).  For K other than directory the search
+    must answer that first name and probe no further; for K = directory it must not answer it."""
+    gl = {'include_paths': lambda ctx: Obj('StringArray', lazy=True, label='include_paths'), 'include_next_idx': lambda ctx: Sym('g:include_next_idx', 'int')}
+    for fn in ('search_include_paths', 'search_include_next'):
+        where = '%s:%d' % (U, u.fn(fn).line)
+        params = u.params(fn)
+        for kind, mode in FILE_KINDS + (DIR_KIND,):
+            def h_stat(it, ctx, n, args, mode=mode):
+                k = getattr(ctx, 'nstat', 0)
+                ctx.nstat = k + 1
+                buf = [a for a in args if isinstance(a, _Ref)]
+                if not buf:
+                    raise Unsupported('stat() is not handed the address of a local record')
+                o = Obj('stat', lazy=True, label='statbuf')
+                o.fields['st_mode'] = (mode if k == 0 else 0o100000) | 0o644
+                buf[-1].place.set(it, o)
+                ctx.emit('call', 'stat', args, n.line, 0, None)
+                return 0
+            it = PPInterp(P, u, {'cut': {'stat': h_stat, 'stat64': h_stat, 'hashmap_get': _h_map('hashmap_get', lambda it, ctx, n, args, table: 0),
+                                         'hashmap_put': _h_map('hashmap_put', None)}, 'globals': gl, 'lazy_field': hook, 'loop_limit': 3})
+            try:
+                res = it.explore(fn, lambda ctx: [Sym('p:' + p.name, p.type) for p in params], max_paths=300)
+            except (Unsupported, Infeasible, AnalysisBroken) as e:
+                rep.undecided('R10.7', '%s:%s:first-match/%s' % (U, fn, kind), 'the search could not be followed with its probe inlined: %s' % e, where=where)
+                continue
+            seen = 0
+            bad = None
+            for ctx, out in res:
+                st = calls(ctx, 'stat')
+                if out[0] != 'ret' or not st:
+                    continue
+                seen += 1
+                first = st[0][2][0] if st[0][2] else None
+                r = settle(it, out[1]) if isinstance(out[1], View) else out[1]
+                same = r is first or (not isinstance(r, int) and repr(r) == repr(first))
+                if kind == 'directory':
+                    if same:
+                        bad = bad or ('answers the name of a directory', ctx.trail)
+                elif not same or len(st) != 1:
+                    bad = bad or ('passes it over and %s' % ('probes the next directory' if len(st) > 1 else 'answers %r' % (r,)), ctx.trail)
+            if not seen:
+                rep.undecided('R10.7', '%s:%s:first-match/%s' % (U, fn, kind), 'no path of %s that asks stat() about a name could be followed' % fn, where=where)
+                continue
+            rep.ob('R10.7', '%s:%s:%s/%s' % (U, fn, 'first-match' if not bad else ('answers-a' if kind == 'directory' else 'passes-over-a'), kind), bad is None,
+                   '%s, probing a directory of the include path in which the name exists as a %s, %s: the first directory in which the name denotes something other than a '
+                   'directory must end the search (gcc reads it or diagnoses it; a header stubbed out as a link to /dev/null must not be replaced by the header of '
+                   'the same name from a later directory)' % (fn, kind, bad[0] if bad else ''), where=where, facts={'path': bad[1]} if bad else None)
+
+
+def _r107_quoted_site(P, u, T, rep):
+    """the first station of a quoted #include -- the directory of the including file -- under the same clause: the dispatcher arm is run on `#include M` with its
+    probe inlined and stat() answering "exists, file type K"."""
+    fn = 'preprocess2'
+    for kind, mode in FILE_KINDS + (DIR_KIND,):
+        def h_stat(it, ctx, n, args, mode=mode):
+            buf = [a for a in args if isinstance(a, _Ref)]
+            if not buf:
+                raise Unsupported('stat() is not handed the address of a local record')
+            o = Obj('stat', lazy=True, label='statbuf')
+            o.fields['st_mode'] = mode | 0o644
+            buf[-1].place.set(it, o)
+            ctx.emit('call', 'stat', args, n.line, 0, None)
+            return 0
+        cfg = pp2_config(u)
+        cfg['cut'] = dict(cfg['cut'])
+        cfg['cut'].pop('file_exists', None)
+        cfg['cut']['stat'] = h_stat
+        cfg['cut']['stat64'] = h_stat
+        it = PPInterp(P, u, cfg)
+        key = '%s:%s:include/includer-directory' % (U, fn)
+        line = u.fn(fn).line
+        try:
+            res = it.explore(fn, directive_scenario(T, 'include'), max_paths=400)
+        except (Unsupported, Infeasible, AnalysisBroken) as e:
+            rep.undecided('R10.7', '%s/first-match/%s' % (key, kind), 'the #include arm could not be followed with its probe inlined: %s' % e)
+            continue
+        seen = 0
+        bad = None
+        for ctx, out in res:
+            st = calls(ctx, 'stat')
+            inc = calls(ctx, 'include_file')
+            if not st or not inc:
+                continue
+            seen += 1
+            line = _arm_line(ctx, line)
+            first = st[0][2][0] if st[0][2] else None
+            got = inc[0][2][1] if len(inc[0][2]) > 1 else None
+            got = settle(it, got) if isinstance(got, View) else got
+            same = got is first or (not isinstance(got, int) and repr(got) == repr(first))
+            searched = bool(calls(ctx, ('search_include_paths', 'search_include_next')))
+            if kind == 'directory':
+                if same or not searched:
+                    bad = bad or ('includes the directory (or does not go on to the include path)', ctx.trail)
+            elif not same or searched or len(st) != 1:
+                bad = bad or ('passes it over and goes on to the include path', ctx.trail)
+        where = '%s:%d' % (U, line)
+        if not seen:
+            rep.undecided('R10.7', '%s/first-match/%s' % (key, kind), 'no path of the #include arm that asks stat() about a name and includes a file could be followed', where=where)
+            continue
+        rep.ob('R10.7', '%s/%s/%s' % (key, 'first-match' if not bad else ('answers-a' if kind == 'directory' else 'passes-over-a'), kind), bad is None,
+               'a quoted #include whose name exists in the directory of the including file as a %s %s: the including file\'s directory is the first station of the search '
+               'and anything there that is not a directory ends it (gcc reads it or diagnoses it; a local stub that is a link to /dev/null must not lose against a header of '
+               'that name from -I)' % (kind, bad[0] if bad else ''), where=where, facts={'path': bad[1]} if bad else None)
 
 
 def _dir_index(p):
@@ -3490,6 +3716,42 @@ def _r106_order(P, mu, rep):
     norm = [(a if a != 'define_macro' else 'define', b) for a, b in seqs[0]]
     rep.ob('R10.6', 'main.c:parse_args:D-U-in-argv-order', norm == want,
            '`-DX -UX -D X=2 -U Y` is applied as %r: definitions and undefinitions must act in command-line order' % (seqs[0],), where='main.c:%d' % mu.fn('parse_args').line)
+
+
+# ------------------------------------------------------------------------------------------------ R10.14
+def r1014_tables(P, rep):
+    """`#ifdef X`, `#ifndef X`, `defined(X)` and the expansion decision select text by asking the macro table; the re-inclusion shortcuts (R10.3) ask the
+    `#pragma once` table and the guard memo; search_include_paths answers from its cache.  All of them are instances of the one open-addressing table of
+    hashmap.c, and the selected text is right only if that table is a dictionary: a lookup answers the value of the most recent put of exactly that key that
+    no delete followed, for every history of puts and deletes.  `defined(X)` is true exactly when X is defined <=> after `#define A`, `#define B`, `#undef A`,
+    `#define B`, `#undef B` (A and B in one probe sequence) no copy of B is left.  The premises of the textbook correctness argument for open addressing
+    with tombstones are what C17 decides on hashmap.c (claim a slot only after the probe has proven the key absent, lookups pass tombstones and end only at a
+    NULL slot, delete writes the sentinel, `used` accounting and rehash, put/get store and return the value) together with who may write the macro table;
+    they are clauses of this property too and are re-issued here."""
+    rep.rule('R10.14', 'defined(X) / #ifdef X is true exactly when X is defined, and a re-inclusion shortcut is taken exactly for a recorded file: the hash table behind the macro '
+             'table, the #pragma once table, the guard memo and the include cache is a dictionary for every history of insertions and deletions (C17 R17.1-R17.8 '
+             're-issued: a slot is claimed only after the key is proven absent, lookups pass tombstones, delete leaves a tombstone, used/rehash accounting, '
+             'put/get carry the value; the macro table is written by #define/#undef/-D/-U alone and read by find_macro alone)', floor=FLOORS['R10.14'])
+    from ..report import Report, reissue
+    from . import c17
+    hu = P.unit(c17.U)
+    why = ('the table no longer answers "the most recent definition of exactly this name, none after #undef": #ifdef / defined() / an #include shortcut selects other text '
+           'than the directives executed so far prescribe: ')
+    total = 0
+    for name, args in (('r171', (P, hu)), ('r172', (P, hu)), ('r173', (P, hu)), ('r175', (P, hu)), ('r176', (P, hu)), ('r177', (P,))):
+        f = getattr(c17, name, None)
+        if f is None:
+            rep.undecided('R10.14', 'R17/%s/vanished' % name, 'the C17 rule function %s is gone' % name)
+            continue
+        sub = Report('C17')
+        try:
+            f(*(args + (sub,)))
+        except (AnalysisBroken, Unsupported, Infeasible) as e:
+            rep.undecided('R10.14', 'R17/%s/analysis' % name, 'the table analysis %s could not proceed: %s' % (name, e))
+            continue
+        total += reissue(rep, 'R10.14', sub, why)
+    if total == 0:
+        rep.undecided('R10.14', 'R17/none', 'C17 issued no obligation about the hash table')
 
 
 # ------------------------------------------------------------------------------------------------ R10.9
